@@ -73,6 +73,8 @@ def expr_failures():
     E["interp_slot_error"] = lambda: A.IStr(["é ", V("nope"), "!"])
     E["interp_slot_parse"] = lambda: A.IStr(["a", A.RawSlot("1 +"), "b"])
     E["print_invalid_utf8"] = lambda: A.Call(V("print"), [(A.Index(S("é"), I(0)), False)])
+    E["print_invalid_utf8_nested"] = lambda: A.Call(V("print"), [(_lst(I(1), S("ok"), _lst(A.Index(S("aé"), I(1)))), False)])
+    E["print_invalid_utf8_in_object"] = lambda: A.Call(V("print"), [(A.obj(("a", I(1)), ("z", A.Index(S("é"), I(0)))), False)])
     E["len_invalid_utf8"] = lambda: A.Call(A.Prop(A.Paren(A.Index(S("é"), I(1))), "len", True), [])
     return E
 
